@@ -697,7 +697,7 @@ def params_many(tdgl, args, tmp):
         if it.get("via") == "solution":
             out.append(param_in_solution(tdgl, it, tmp))
         else:
-            out.append(pa.exercise(tdgl, dict(it, calls=[("F2", 0), ("F3T", 64)], others=[], clear=False)))
+            out.append(pa.exercise(tdgl, dict(it, calls=[("F2", 0), ("F3T", 64)], others=[], clear=False, deliver=False)))
     return out
 
 
